@@ -15,7 +15,7 @@ Three things happen per generated input:
 """
 import codecs, io, json, random, re
 from harness import proto
-from harness.framework import Result, pmap
+from harness.framework import Result, pmap, Hang, deadline
 from harness.proto import Atom, B, N
 from harness import gen_soup7 as G
 
@@ -127,7 +127,7 @@ def drain(it):
         for e in it:
             out.append(e)
     except BaseException as ex:   # noqa: the oracle wants to see everything that escapes
-        if isinstance(ex, (KeyboardInterrupt, SystemExit)):
+        if isinstance(ex, (KeyboardInterrupt, SystemExit, Hang)):
             raise
         return out, ex
     return out, None
@@ -1874,16 +1874,29 @@ def nontrivial_key(case):
     return txt
 
 
+_HUNG = False
+
+
 def process(cases, res, do_oracle=True):
     pending = []
     for c in cases:
         res.evaluations += 1
         res.count('kind:' + c['kind'])
-        if do_oracle:
-            f = oracle_case(c)
-            if f:
-                res.failures.append(f)
-        for stream, script, line, real, tok in model_jobs(c):
+        global _HUNG
+        try:
+            # termination is part of the property ("total"): a parse that does not come back is a failure with this
+            # input (after the first one the limit drops, so that a change that hangs on everything still ends the check)
+            with deadline(5 if _HUNG else 120):
+                f = oracle_case(c) if do_oracle else None
+                jobs = list(model_jobs(c))
+        except Hang as ex:
+            _HUNG = True
+            res.count('hang')
+            res.failures.append(fail(c, 'the parser terminates', 'a stream or ParseError', 'does not terminate: %s' % ex))
+            continue
+        if f:
+            res.failures.append(f)
+        for stream, script, line, real, tok in jobs:
             script_stats(res, stream, script)
             if not tok:
                 res.count('tokenizer-contract-broken')
